@@ -7,7 +7,7 @@ NOTE_COMMON = ("Trusted base: python's ast grammar; the documented semantics of 
                "helpers resolved through the reference call table, canonical conditionals, fill-by-loop accumulators as "
                "comprehensions, local functions as lambdas, displays unrolled); where a rule evaluates an extracted formula on a "
                "grid of placements the verdict holds for the listed points; the thorough tier re-runs the "
-               "mutant catalogue, the engine self-test and the 505 stored seeded changes (304 defects, 201 behaviour-preserving refactors). Every check also runs, on its anchor files and the functions it summarises, the common rules G.1 - G.3 (shared state, input mutation), G.4 / G.5 (public signatures, constants and pydantic model declarations against the reference table sa/pinned_decls.json), G.6 - G.8 (one-shot iterators, mutation while iterating, swallowed exceptions, truthiness of model instances); new optional parameters of reference functions are analysed at their defaults.")
+               "mutant catalogue, the engine self-test and the 605 stored seeded changes (344 defects, 261 behaviour-preserving refactors). Every check also runs, on its anchor files and the functions it summarises, the common rules G.1 - G.3 (shared state, input mutation), G.4 / G.5 (public signatures, constants, pydantic model declarations incl. value-rewriting validators / serialisers, and class bases against the reference table sa/pinned_decls.json), G.9 (public names of the package resolve to the analysed definitions, else the rules are re-run on the replacing definition), G.6 - G.8 (one-shot iterators, mutation while iterating, swallowed exceptions, truthiness of model instances); new optional parameters of reference functions are analysed at their defaults.")
 
 CLAIMS = {
     "C01": {
@@ -69,7 +69,7 @@ CLAIMS = {
                 "order (time-only types spanning [0, MAX_FREQUENCY]); compute_bounds is the converted shape's bounds; all 33 Feature "
                 "rows carry the canonical expression their term names over the bounds positions; all 11 named positions evaluate to "
                 "the specified corner/midpoint/centre as (time, frequency). shapely's bounds/centroid/point_on_surface are trusted.",
-        "design_ref": "DESIGN.md section 3, C05 (R05.1-R05.5)",
+        "design_ref": "DESIGN.md section 3, C05 (R05.1-R05.5); delegated validator subset of C03 in section 8.12",
         "note": NOTE_COMMON,
         "technique": "dispatch-table exhaustiveness, canonical-term (value numbering) comparison of every table row and of the position selector under each constant position",
     },
@@ -79,7 +79,7 @@ CLAIMS = {
                 "either geometry is time-only; both geometries prepared with the caller's buffers; canonical IoU with zero-union "
                 "guard in both branches; the area quotient, which has no static bound of 1, is clamped. IoU values, disjoint => 0 "
                 "and shift invariance depend on shapely numerics and are not decided.",
-        "design_ref": "DESIGN.md section 3, C06 (R06.1-R06.5); per-type and grid evaluation in section 8.8",
+        "design_ref": "DESIGN.md section 3, C06 (R06.1-R06.5); per-type and grid evaluation in section 8.8; delegated conversion / validator subsets in section 8.12",
         "note": NOTE_COMMON,
         "technique": "swap-invariance of gated-SSA summaries under algebraic canonicalisation; canonical-term matching of the IoU; range rule for unclamped area quotients",
     },
@@ -88,7 +88,7 @@ CLAIMS = {
                 "with the caller's buffers; the solver maximises over the unmodified matrix; paired rows/columns leave the leftover "
                 "sets in the same iteration and all leftovers are yielded one-sided; two-sided yields are dominated by a positive-"
                 "affinity test; the reported affinity is the pair's cell (0 one-sided). Optimality of scipy's solver is trusted.",
-        "design_ref": "DESIGN.md section 3, C07 (R07.1-R07.5); complement form and dtype rule in section 8.8",
+        "design_ref": "DESIGN.md section 3, C07 (R07.1-R07.5); complement form and dtype rule in section 8.8; substrate delegations in section 8.12",
         "note": NOTE_COMMON,
         "technique": "index/element provenance through enumerate/product; dominance and pairing rules over the event list of the generator",
     },
@@ -98,7 +98,7 @@ CLAIMS = {
                 "of both lists exactly once by the match-loop sources (matcher part + complementary one-sided parts, complement "
                 "checked on the filter predicates); affinity/score flow; pair score from (annotation truth, prediction scores); "
                 "guarded means over exactly the constructed matches / clips; three None-cases with one Match each.",
-        "design_ref": "DESIGN.md section 3, C08 (R08.1-R08.7); object domains and delegated C06 formula rules in section 8.8",
+        "design_ref": "DESIGN.md section 3, C08 (R08.1-R08.7); object domains and delegated C06 formula rules in section 8.8; substrate delegations in section 8.12",
         "note": NOTE_COMMON,
         "technique": "index-domain typing (abstract interpretation of list indices), coverage analysis of comprehension filters, case analysis of the branch guards",
     },
@@ -109,7 +109,7 @@ CLAIMS = {
                 "same mask on both arrays; every mean over a selection is guarded against emptiness; each task builds its metric lists from "
                 "its own tables at the right level under its own name; the per-item results and the truth / score rows a task function "
                 "returns are accumulated in lock-step (same loops, same conditions). Metric values vs independent formulas / order independence not decided.",
-        "design_ref": "DESIGN.md section 3, C09 (R09.1-R09.5); R09.6 in section 8.8; rank rule of the unlabelled mask (F18) in section 8.11",
+        "design_ref": "DESIGN.md section 3, C09 (R09.1-R09.5); R09.6 in section 8.8; rank rule of the unlabelled mask (F18) in section 8.11; delegated encoder rules of C19 in section 8.12",
         "note": NOTE_COMMON,
         "technique": "table-row agreement over resolved names; sibling cross-check of wrapper summaries as canonical terms; guard-dominance rule for means",
     },
@@ -120,7 +120,7 @@ CLAIMS = {
                 "around a unit buffer, clips to [0, max_time + c] x [0, MAX_FREQUENCY] and re-validates; the constant that scales a "
                 "zero-buffer axis keeps the unit buffer representable in doubles over the whole validated frequency range (magnitude rule). "
                 "Containment/monotonicity on the shapely path are otherwise numerical and not decided.",
-        "design_ref": "DESIGN.md section 3, C11 (R11.1-R11.6); R11.7 in section 8.9",
+        "design_ref": "DESIGN.md section 3, C11 (R11.1-R11.6); R11.7 in section 8.9; delegated conversion / validator subsets in section 8.12",
         "note": NOTE_COMMON,
         "technique": "canonical-term comparison of closed forms; keyword-pairing (call binder); lambda-summary symmetry; guard evaluation on interval endpoints",
     },
@@ -129,7 +129,7 @@ CLAIMS = {
                 "canonically min(stops) - max(starts) >= threshold (0 | absolute | relative x shorter width); threshold validation exact at the "
                 "endpoints 0 and 1; temporal/frequency predicates pass the right bounds projections and forward thresholds; is_in_clip decided "
                 "on all 9 orderings incl. touching cases and the negative-minimum guard.",
-        "design_ref": "DESIGN.md section 3, C12 (R12.1-R12.5)",
+        "design_ref": "DESIGN.md section 3, C12 (R12.1-R12.5); delegated conversion / validator subsets in section 8.12",
         "note": NOTE_COMMON,
         "technique": "swap-invariance and canonical comparison of summaries; ordering/interval-endpoint evaluation of extracted guards",
     },
@@ -157,7 +157,7 @@ CLAIMS = {
                 "positions with floor sample indices and Nyquist cap; cast/raise switches by truth table; error policy (skip iff "
                 "ignore_errors, else re-raise, append outside the handler); one output per input in order; label cascades decided per "
                 "option scenario incl. 'explicit option survives a lookup miss'. Exact float reproduction is trusted from pass-through.",
-        "design_ref": "DESIGN.md section 3, C10 (R10.1-R10.6)",
+        "design_ref": "DESIGN.md section 3, C10 (R10.1-R10.6); delegated term codec rule of C01 in section 8.12",
         "note": NOTE_COMMON,
         "technique": "dimension (unit-exponent) abstract domain over gated-SSA terms; truth tables of extracted guards; scenario-wise partial evaluation of option cascades",
     },
@@ -202,7 +202,7 @@ CLAIMS = {
                 "template's positional shape); output labelling (xdim, ydim) with matching transpose and template coordinates; value broadcast "
                 "and length guard; x through the xdim axis and y through the ydim axis, clamped; shapes in input order; fill/dtype/all_touched "
                 "forwarded. Which cells rasterio marks is trusted / not decided.",
-        "design_ref": "DESIGN.md section 3, C20 (R20.1-R20.5); R20.6 and the element-wise view in sections 8.7 / 8.8",
+        "design_ref": "DESIGN.md section 3, C20 (R20.1-R20.5); R20.6 and the element-wise view in sections 8.7 / 8.8; delegated conversion / validator subsets in section 8.12",
         "note": NOTE_COMMON,
         "technique": "provenance classification of the shape argument; call-binder pairing of dimension names inside the nested transform",
     },
